@@ -658,6 +658,56 @@ fn adversarial(thorough: bool) -> Vec<Value> {
             }
         }
     }
+    // --- block clauses `<query> { .. }` whose own query raises an evaluation error (undefined / failing / self-referential
+    //     variables, an error inside a filter of the query), at rule, block, when and file level, through every entry point
+    {
+        let heads = [
+            ("", "%nosuch"),
+            ("", "%nosuch.b"),
+            ("let v = parse_int(a)\n", "%v"),
+            ("let v = parse_int(a)\n", "%v[*]"),
+            ("let v = %w\nlet w = %v\n", "%v"),
+            ("", "l[ b empty ]"),
+            ("", "l[ b empty ].c"),
+            ("", "l[ %nosuch exists ]"),
+            ("", "a[ keys == %nosuch ]"),
+            ("", "l[*].%nosuch"),
+            ("let v = regex_replace(a, \"(\", \"x\")\n", "%v"),
+        ];
+        let docs = ["{\"a\":\"x\",\"b\":1,\"l\":[{\"b\":1,\"c\":{\"d\":1}}]}", "{\"Resources\":{\"r\":{\"Type\":\"T\",\"Properties\":{\"a\":\"x\",\"l\":[{\"b\":1}]}}},\"a\":\"x\",\"l\":[{\"b\":2}]}"];
+        for (lets, q) in heads {
+            let forms = [
+                format!("{}rule r {{ {} {{ d exists }} }}\n", lets, q),
+                format!("{}rule r {{ {} {{ d exists <<m>> }} }}\n", lets, q),
+                format!("{}rule r {{ some {} {{ d exists }} }}\n", lets, q),
+                format!("{}rule r {{ {} !empty {{ d exists }} }}\n", lets, q),
+                format!("{}rule r {{ a exists\n {} {{ d exists }} or b exists }}\n", lets, q),
+                format!("{}rule r {{ l[*] {{ {} {{ d exists }} }} }}\n", lets, q),
+                format!("{}rule r {{ when a exists {{ {} {{ d exists }} }} }}\n", lets, q),
+                format!("{}rule r when a exists {{ {} {{ d exists }} }}\n", lets, q),
+                format!("{}{} {{ d exists }}\n", lets, q),
+                format!("{}rule p(x) {{ {} {{ d exists }} }}\nrule r {{ p(a) }}\n", lets, q),
+                format!("{}rule r {{ T {{ {} {{ d exists }} }} }}\n", lets, q),
+            ];
+            for r in &forms {
+                for d in docs {
+                    out.push(lib_case(r, d, "erroring-block-query"));
+                    for extra in [vec![], vec!["-S", "all", "-v"], vec!["-p"], vec!["-o", "json"], vec!["--structured", "-o", "json", "-S", "none"], vec!["--structured", "-o", "sarif", "-S", "none"]] {
+                        let mut argv = vec!["validate", "-r", "@r.guard", "-d", "@d.json"];
+                        argv.extend(extra.iter());
+                        out.push(cli_case(&argv, json!({"r.guard": r, "d.json": d}), "", "erroring-block-query"));
+                    }
+                    out.push(cli_case(&["validate", "--payload"], json!({}), &json!({"rules":[r],"data":[d]}).to_string(), "erroring-block-query"));
+                    let tests = format!("[{{\"name\":\"t\",\"input\":{},\"expectations\":{{\"rules\":{{\"r\":\"PASS\"}}}}}}]", d);
+                    for fmt in [vec![], vec!["-v"], vec!["-o", "json"], vec!["-o", "junit"]] {
+                        let mut argv = vec!["test", "-r", "@r.guard", "-t", "@t.json"];
+                        argv.extend(fmt.iter());
+                        out.push(cli_case(&argv, json!({"r.guard": r, "t.json": tests}), "", "erroring-block-query"));
+                    }
+                }
+            }
+        }
+    }
     // --- custom messages of every degenerate shape (empty, blanks, only separators, separators at either end, line breaks)
     //     on every kind of clause that takes one, over CloudFormation / Terraform / plain documents, in every output mode
     {
